@@ -6,6 +6,7 @@ package rulesmon
 
 import (
 	"fmt"
+	"math/big"
 	"os"
 	"strings"
 	"time"
@@ -679,6 +680,7 @@ func bip68(c *ctx, timeBased bool, excess uint32) *refchain.Block {
 // ---------------------------------------------------------------------------------------------
 
 type Config struct {
+	Retarget bool // coinbase-only chain across several 2016-block epochs (C05 only)
 	Name     string
 	Testnet  bool
 	Late     bool // late activation heights (all boundaries above coinbase maturity)
@@ -711,6 +713,10 @@ func Child(prop string, seed int64, tier string, cfgName string, stateFile strin
 	s := chainsim.NewSim(run, r, p, dir, chainsim.NodeOpts{CompressUTXO: cfg.Compress})
 	defer s.Close()
 	g := s.G
+	if cfg.Retarget {
+		runRetarget(run, s, r, cfg)
+		return
+	}
 	c := &ctx{s: s, g: g, r: r}
 	var mine []probe
 	var onlyProbe *probe
@@ -839,6 +845,120 @@ func Child(prop string, seed int64, tier string, cfgName string, stateFile strin
 	}
 	if run.WantSample() {
 		run.Sample(map[string]interface{}{"config": cfg.Name, "final_height": s.Ref.Tip.Height, "journal_tail": lastN(s.Log, 12)})
+	}
+}
+
+// runRetarget grows a coinbase-only chain over three difficulty epochs (timespan far below 1/4,
+// far above 4x, and in range) and probes the required-target rule at every boundary and, for the
+// testnet rule set, the 20-minute minimum-difficulty exception at ordinary heights.
+func runRetarget(run *vlib.Run, s *chainsim.Sim, r *vlib.Rand, cfg Config) {
+	g := s.G
+	g.KeepViews = false
+	s.CompareUTXOEvery = 97
+	p := g.P
+	spacings := []uint32{1 + uint32(r.Intn(3)), 2400 + uint32(r.Intn(400)), 400 + uint32(r.Intn(300))} // fast, slow, in range
+	if p.MinDiffBlocks {
+		// testnet: keep the gaps of the second epoch below 20 minutes so that real difficulty is in force
+		spacings = []uint32{1 + uint32(r.Intn(3)), 400 + uint32(r.Intn(300)), 2400 + uint32(r.Intn(400))}
+	}
+	end := uint32(cfg.Blocks)
+	refuse := func(b *refchain.Block, fam string) bool {
+		rr, _, ok := s.Offer(b, fam)
+		if !ok {
+			return false
+		}
+		if rr.Stage != "check-refused" {
+			run.Inconclusive("retarget calibration: %s expected refusal, reference says %s/%s", fam, rr.Stage, rr.Reason)
+			return false
+		}
+		run.Distinct("probes", fam)
+		run.Distinct("probe_x_height", fam, s.Ref.Tip.Height+1)
+		return true
+	}
+	for s.Ref.Tip.Height < end {
+		tip := s.Ref.Tip
+		h := tip.Height + 1
+		epoch := int(tip.Height / refchain.Interval)
+		sp := spacings[epoch%len(spacings)]
+		t := tip.Time + sp
+		if m := tip.MTP(); t <= m {
+			t = m + 1
+		}
+		if p.MinDiffBlocks && r.Intn(25) == 0 {
+			t = tip.Time + 1201 + uint32(r.Intn(100)) // 20-minute rule applies
+		}
+		req := p.RequiredBits(tip, t)
+		boundary := h%refchain.Interval == 0
+		if boundary {
+			run.Distinct("retarget_results", epoch, req, tip.Bits)
+			if req != tip.Bits {
+				if !refuse(g.Build(chainsim.BlockSpec{Parent: tip, Time: t, Bits: tip.Bits}), "retarget/old-bits-kept") {
+					return
+				}
+			}
+			if !refuse(g.Build(chainsim.BlockSpec{Parent: tip, Time: t, Bits: req - 1}), "retarget/bits-1") {
+				return
+			}
+			if !refuse(g.Build(chainsim.BlockSpec{Parent: tip, Time: t, Bits: req + 1}), "retarget/bits+1") {
+				return
+			}
+			// the unclamped result (timespan not limited to [1/4, 4x])
+			first := tip.Ancestor(tip.Height - (refchain.Interval - 1))
+			span := int64(tip.Time) - int64(first.Time)
+			tg, _, _ := refchain.DecodeCompact(tip.Bits)
+			tg.Mul(tg, big.NewInt(span))
+			tg.Div(tg, big.NewInt(refchain.TargetTimespan))
+			if tg.Sign() > 0 {
+				if unc := refchain.EncodeCompact(tg); unc != req {
+					if !refuse(g.Build(chainsim.BlockSpec{Parent: tip, Time: t, Bits: unc}), "retarget/unclamped-timespan") {
+						return
+					}
+				}
+			}
+		} else if p.MinDiffBlocks && r.Intn(12) == 0 {
+			// testnet rule probes at ordinary heights
+			if int64(t) > int64(tip.Time)+1200 {
+				if tip.Bits != p.PowLimitBits || true {
+					x := tip
+					for x.Parent != nil && x.Height%refchain.Interval != 0 && x.Bits == p.PowLimitBits {
+						x = x.Parent
+					}
+					if x.Bits != p.PowLimitBits {
+						if !refuse(g.Build(chainsim.BlockSpec{Parent: tip, Time: t, Bits: x.Bits}), "testnet/real-bits-after-20min-gap") {
+							return
+						}
+					}
+				}
+			} else if req != p.PowLimitBits {
+				if !refuse(g.Build(chainsim.BlockSpec{Parent: tip, Time: t, Bits: p.PowLimitBits}), "testnet/min-difficulty-without-gap") {
+					return
+				}
+			}
+		} else if r.Intn(300) == 0 {
+			if !refuse(g.Build(chainsim.BlockSpec{Parent: tip, Time: t, Bits: req - 1}), "bits/mantissa-1") {
+				return
+			}
+		}
+		fam := "valid/epoch-block"
+		if boundary {
+			fam = "valid/retarget-block"
+			run.Distinct("probe_x_height", fam, h)
+		}
+		rr, _, ok := s.Offer(g.Build(chainsim.BlockSpec{Parent: tip, Time: t}), fam)
+		if !ok {
+			return
+		}
+		if rr.Stage != "connected" {
+			run.Inconclusive("retarget chain: generator produced a block the reference refuses: %s/%s", rr.Stage, rr.Reason)
+			return
+		}
+		g.DropView(tip.Hash)
+		if h%500 == 0 {
+			s.N.Ch.Idle()
+		}
+	}
+	if run.WantSample() {
+		run.Sample(map[string]interface{}{"config": cfg.Name, "final_height": s.Ref.Tip.Height, "final_bits": fmt.Sprintf("%08x", s.Ref.Tip.Bits), "journal_tail": lastN(s.Log, 6)})
 	}
 }
 
@@ -973,6 +1093,11 @@ func Configs(tier string) []Config {
 		{Name: "early-compressed", Late: false, Compress: true, Blocks: 130},
 		{Name: "testnet-late", Late: true, Testnet: true, Blocks: 140},
 	}
+	if tier == "quick" {
+		l = append(l, Config{Name: "retarget-mainnet", Retarget: true, Blocks: 2 * 2016 + 20}, Config{Name: "retarget-testnet", Retarget: true, Testnet: true, Blocks: 2*2016 + 20})
+	} else {
+		l = append(l, Config{Name: "retarget-mainnet", Retarget: true, Blocks: 6*2016 + 20}, Config{Name: "retarget-testnet", Retarget: true, Testnet: true, Blocks: 6*2016 + 20})
+	}
 	if tier == "thorough" {
 		l = append(l,
 			Config{Name: "late-compressed", Late: true, Compress: true, Blocks: 220},
@@ -1024,6 +1149,9 @@ func Main(prop string) {
 	reps := run.N(5, 60)
 	for i := 0; i < reps; i++ {
 		for _, c := range Configs(run.Tier) {
+			if c.Retarget && (prop != "C05" || i >= run.N(1, 6)) {
+				continue
+			}
 			jobs = append(jobs, job{c, run.Seed*1000 + int64(i), ""})
 		}
 	}
